@@ -457,6 +457,7 @@ private:
   static void check_preamble_ints(uint8_t preamble_ints, uint8_t num_levels);
   static void check_serial_version(uint8_t serial_version);
   static void check_family_id(uint8_t family_id);
+  static void check_k(uint16_t k);
   static void check_num_levels(uint8_t num_levels);
   static void check_lg_weight(uint8_t lg_weight, size_t level);
   static void check_n(uint64_t n, uint64_t weight);
